@@ -911,4 +911,20 @@ theorem portSetIsAll_eq (p : PortSet) : Gen.Procs.portSetIsAll p = .ok p.isAll :
   unfold Gen.Procs.portSetIsAll PortSet.isAll
   cases p.excluded <;> simp [PortSet.mk', pure_ok]
 
+/-- `ConnectionSet.Equal`: same flag, same number of entries, every entry of the receiver present and equal on the other side -/
+theorem connSetEqual_eq (c o : ConnSet) : Gen.Procs.connSetEqual c o = .ok (c.equal o) := by
+  obtain ⟨ca, ct, cu, cs⟩ := c
+  obtain ⟨oa, ot, ou, os⟩ := o
+  cases oa <;> cases ca <;> cases ct <;> cases cu <;> cases cs <;> cases ot <;> cases ou <;> cases os <;>
+    simp [Gen.Procs.connSetEqual, Gen.Procs.connSetEqual_loop1, ConnSet.equal, ConnSet.numProtos, Proto.all, ConnSet.get, List.filter,
+      ok_bind, pure_ok, bind_ok_id, ite_ok]
+  all_goals (repeat (first | rfl | (split <;> simp_all [ok_bind, pure_ok, bind_ok_id, ite_ok])))
+
+/-- `ConnectionSet.Copy`: the same value (entry by entry, each a copy) -/
+theorem connSetCopy_eq (c : ConnSet) : Gen.Procs.connSetCopy c = .ok c.copy := by
+  obtain ⟨ca, ct, cu, cs⟩ := c
+  cases ct <;> cases cu <;> cases cs <;>
+    simp [Gen.Procs.connSetCopy, ConnSet.copy, ConnSet.mk', Proto.all, List.foldlM, ConnSet.get, ConnSet.set, PortSet.copy,
+      ok_bind, pure_ok, bind_ok_id, ite_ok]
+
 end Netpol.Tie.Procs
